@@ -260,7 +260,45 @@ func genHistory(r *gal.Rand, i int) *History {
 	// loop is deterministic since fix c03e0c0, so all of them are compared with the
 	// model); one in seven histories regroups its indexes (outside the envelope of
 	// c08_history_independent: C08-F2)
+	if i%8 == 2 {
+		return genOneKey(r, i%3 == 2)
+	}
 	return genHistoryOpts(r, i, i%5 == 3 || i%5 == 1, i%7 == 5)
+}
+
+// k resolutions through ONE resolver-cache key (one index list, hence one cached
+// prototype whose clones serve every call) with different worlds, under one
+// grouping (hence one disqualification entry, copied per call); the harness
+// compares every call with a fresh PROCESS
+func genOneKey(r *gal.Rand, iif bool) *History {
+	u := genUniverse(r, iif)
+	h := &History{Universe: u, Class: "gen/one-key"}
+	l := subset(r, len(u))
+	var g []ArchD
+	switch r.Intn(3) {
+	case 1:
+		g = []ArchD{{"x86_64", l}}
+	case 2:
+		if len(u) >= 2 {
+			g = []ArchD{{"aarch64", []int{(l[0] + 1) % len(u)}}, {"x86_64", l}}
+		}
+	}
+	worlds := [][]string{genWorld(r, u), genWorld(r, u), genWorld(r, u), genWorld(r, u), genWorld(r, u)}
+	for n := 6 + r.Intn(4); n > 0; n-- {
+		h.Calls = append(h.Calls, CallD{Indexes: l, World: gal.Pick(r, worlds), Archs: g})
+	}
+	return h
+}
+
+func permuted(r *gal.Rand, l []int) []int {
+	q := append([]int(nil), l...)
+	if r.Bool() || len(q) == 2 {
+		for i, j := 0, len(q)-1; i < j; i, j = i+1, j-1 {
+			q[i], q[j] = q[j], q[i]
+		}
+		return q
+	}
+	return append(q[1:], q[0])
 }
 
 func genHistoryOpts(r *gal.Rand, i int, iif, regroup bool) *History {
@@ -274,6 +312,11 @@ func genHistoryOpts(r *gal.Rand, i int, iif, regroup bool) *History {
 	lists := [][]int{subset(r, len(u)), subset(r, len(u))}
 	if r.Bool() {
 		lists = append(lists, []int{0})
+	}
+	// the same index SET in another order: the order is part of the resolver-cache key
+	// (a name-version present in two indexes is taken from the one listed first)
+	if len(lists[0]) >= 2 && r.Chance(3, 5) {
+		lists = append(lists, permuted(r, lists[0]))
 	}
 	worlds := [][]string{genWorld(r, u), genWorld(r, u), genWorld(r, u)}
 	var groups [][]ArchD
